@@ -643,9 +643,13 @@ def r12(ctx):
     fn = fb.fn('ebusd::UserList::addFromFile')
     ctx.touch(fn)
     n = 0
+    # a reference local bound to the map element stands for it
+    refs = set(d.split(':')[-1] for nid, d, rhs, op, lhs in fn.assignments() if op == 'init' and d and rhs is not None and
+               fn.key(rhs).startswith('this.m_userLevels['))
     for x in fn.all('CXXOperatorCallExpr'):
         v = fn.nodes[x]
-        if v.get('op') != '=' or not v.get('args') or not fn.key(v['args'][0]).startswith('this.m_userLevels['):
+        if v.get('op') != '=' or not v.get('args') or not (fn.key(v['args'][0]).startswith('this.m_userLevels[') or
+                                                          fn.key(v['args'][0]) in refs):
             continue
         n += 1
         val = fn.ref_decl(v['args'][1])
